@@ -52,10 +52,12 @@ def gen_call(rng, N, have_forward):
     r = rng.random()
     if r < 0.3 or not have_forward:
         kind = rng.choice(['ndarray', 'UTPM', 'UTPM'])
+        # reuse: the caller keeps ONE argument object and refills it in place before the next evaluation (x.data[...] = new point)
+        reuse = rng.random() < 0.4
         if kind == 'ndarray':
-            return dict(call='forward', kind='ndarray', x=progs.rand_point(rng, N).tolist())
-        D = rng.randint(1, 3); P = rng.randint(1, 2)
-        return dict(call='forward', kind='UTPM', x=progs.rand_utpm_data(rng, D, P, N).tolist())
+            return dict(call='forward', kind='ndarray', x=progs.rand_point(rng, N).tolist(), reuse=reuse)
+        D = rng.choice([2, 2, 1, 3]); P = rng.choice([1, 1, 2])
+        return dict(call='forward', kind='UTPM', x=progs.rand_utpm_data(rng, D, P, N).tolist(), reuse=reuse)
     if r < 0.6:
         return dict(call='reverse', seed=rng.randint(0, 10 ** 6))
     if r < 0.85:
@@ -66,11 +68,22 @@ def gen_call(rng, N, have_forward):
     return dict(call='repeat')
 
 
-def do_call(ap, cg, fx, fys, c, last_forward, rng_seed_base):
-    """perform call c on graph (cg, fx, fys); returns result (list of arrays) or None"""
+def do_call(ap, cg, fx, fys, c, last_forward, rng_seed_base, store=None):
+    """perform call c on graph (cg, fx, fys); returns result (list of arrays) or None.  store: the caller's reusable argument objects"""
     if c['call'] == 'forward':
-        x = numpy.array(c['x']) if c['kind'] == 'ndarray' else ap.UTPM(numpy.array(c['x']))
-        return [data_of(y) for y in cg.function([x])]
+        xa = numpy.array(c['x'])
+        key = (c['kind'], xa.shape)
+        if store is not None and c.get('reuse') and key in store:
+            x = store[key]
+            if c['kind'] == 'ndarray':
+                x[...] = xa
+            else:
+                x.data[...] = xa
+        else:
+            x = xa if c['kind'] == 'ndarray' else ap.UTPM(xa)
+            if store is not None:
+                store[key] = x
+        return [numpy.array(data_of(y), copy=True) for y in cg.function([x])]
     if c['call'] == 'reverse':
         lf = last_forward
         x = ap.UTPM(numpy.array(lf['x']))
@@ -122,6 +135,7 @@ def main(tier, seed):
         except Exception as e:
             rep.notes.append('recording raised %r' % e); continue
         hist = []
+        store = {}
         held = []                 # (call index, arrays as returned -- not copied --, copies taken at return time)
         last_forward = None
         last_call = None
@@ -156,7 +170,9 @@ def main(tier, seed):
                 break
             try:
                 before = node_snapshot(cg) if c['call'] == 'reverse' else None
-                got_raw = do_call(ap, cg, fx, fys, c, last_forward, 0)
+                got_raw = do_call(ap, cg, fx, fys, c, last_forward, 0, store)
+                if c['call'] == 'forward' and c.get('reuse'):
+                    rep.count('forward argument object', 'reused, refilled in place')
                 got = [numpy.array(g, copy=True) for g in got_raw]
                 # results handed out by EARLIER calls must not change under later calls (row-by-row Jacobian: J_row1 = x.xbar.data[0,0],
                 # second pullback, vstack)
